@@ -149,7 +149,8 @@ pub fn related_sets(rng: &mut Rng, n: usize, max_tiles: usize, mixed_comp: bool,
 			let m = ((1u64 << z) - 1) as i64;
 			let (ax, ay) = anchors[z];
 			let (ox, oy) = (rng.range_i(-6, 6), rng.range_i(-6, 6));
-			let (w, h) = (rng.range(1, 9) as i64, rng.range(1, 9) as i64);
+			// mostly small, sometimes wide enough to span several 32-tile cells of the overlay / merge grid
+			let (w, h) = if rng.chance(0.2) { (rng.range(20, 70) as i64, rng.range(2, 40) as i64) } else { (rng.range(1, 9) as i64, rng.range(1, 9) as i64) };
 			for dx in 0..w {
 				for dy in 0..h {
 					if rng.chance(0.7) {
